@@ -43,6 +43,13 @@ def gen_C20(chk):
         fs += [("B", "AW", st_, pq), ("B", "EW", st_, pq), ("B", "EW", pq, ("U", "EX", st_))]
         fs += [("H", "Bind", "x", None, ("U", "AG", ("U", "EF", gen.T("V", "x")))),
                ("H", "Bind", "x", None, ("U", "AX", gen.T("V", "x")))]
+        # untils whose target lies outside the path condition
+        pa = gen.T("P", props[0])
+        pb = gen.T("P", props[-1])
+        nn = lambda z: ("U", "Not", z)
+        fs += [("B", "EU", ("B", "Or", pa, pb), ("B", "And", nn(pa), nn(pb))), ("B", "EU", pa, nn(pa)),
+               ("B", "EU", ("B", "And", pa, nn(pb)), nn(pa)), ("B", "AU", ("B", "Or", pa, pb), ("B", "And", nn(pa), nn(pb))),
+               ("H", "Bind", "x", None, ("B", "EU", ("B", "Or", pa, pb), ("B", "And", nn(pa), nn(("U", "EF", gen.T("V", "x"))))))]
         k = max(gen.quant_depth(f) for f in fs)
         cid = add_shell(chk, "SLICE", [str(k), "A:" + gen.hx(net), ",".join(gen.hx(gen.render(f)) for f in fs),
                                        str(32 if thorough(chk) else 12)],
@@ -199,6 +206,8 @@ def gen_C16_cli(chk):
         rng.shuffle(fs)
         add_shell(chk, "CLI", ["aeon", gen.hx(net), gen.hx("\n".join(fs) + "\n"), "summary", "-"], tag="cli-repeated",
                   meta={"net": net, "formulas": fs})
+        add_shell(chk, "CLI", ["aeon", gen.hx(net), gen.hx("# nothing to evaluate\n\n   \n"), "summary", "-"],
+                  tag="cli-no-formulae", meta={"net": net, "formulas": []})
 
 
 def gen_C16_big(chk):
@@ -255,6 +264,11 @@ def gen_C17(chk):
             text = formula_file(rng, fs)
             add_shell(chk, "CLI", ["aeon", gen.hx(net), gen.hx(text), opts[j % 4], "-"], tag="cli-aeon",
                       meta={"net": net, "formulas": fs})
+        # files whose formulae need the self-loop states only through AF / EG / AU / EW
+        a_, b_ = props[0], props[-1]
+        fs = ["AF (%s & %s)" % (a_, b_), "EG ~%s" % a_, "%s AU %s" % (a_, b_), "%s EW %s" % (b_, a_)]
+        add_shell(chk, "CLI", ["aeon", gen.hx(net), gen.hx(formula_file(rng, fs)), "summary", "-"], tag="cli-noex",
+                  meta={"net": net, "formulas": fs})
         # with a context archive
         for j in range(cnt(chk, 2, 4)):
             fs = ["EF %p%", "3{x} in %d%: @{x}: AX {x}", "%p% & (!{x} in %d%: EX {x})"][: rng.randint(1, 3)]
@@ -315,6 +329,8 @@ def conv_expr(rng, regs, syms, depth):
     if depth == 0 or r < 0.25:
         if syms.get(0) and rng.random() < 0.3:
             return rng.choice(syms[0])
+        if rng.random() < 0.12:
+            return rng.choice(["true", "false"])
         return rng.choice(regs)
     if r < 0.45:
         return "!" + conv_expr(rng, regs, syms, depth - 1)
@@ -348,7 +364,9 @@ def gen_C19(chk):
     # the same uninterpreted symbol in both polarities / several times / in several targets
     nets += ["b -?? a\nc -?? a\n$a: f(b) & !f(c)\n", "b -?? a\n$a: (p & b) | (!p & !b)\n",
              "a -?? b\na -?? c\nb -?? c\n$b: f(a)\n$c: f(a) => !f(b)\n", "b -?? a\n$a: !f(b)\n",
-             "b -?? a\nc -?? a\n$a: !h(b, !c) ^ h(c, b)\n"]
+             "b -?? a\nc -?? a\n$a: !h(b, !c) ^ h(c, b)\n",
+             "x -?? a\nx -?? b\ny -?? b\n$a: f(x, true)\n$b: f(x, y)\n", "x -?? a\n$a: f(x, true) ^ f(true, x)\n",
+             "x -?? a\n$a: f(x, x) <=> f(x, false)\n"]
     for i in range(cnt(chk, 40, 160)):
         nets.append(random_conv_network(rng))
     for i in range(cnt(chk, 20, 60)):
